@@ -19,6 +19,16 @@ CLAIMED = {
         "is hand-modelled and tied by correspondence only.",
    tech="Coq proof (induction over strings and tables) + translator-regenerated tables + differential correspondence",
    ref="6 C02"),
+ "C07": dict(
+   text="Machine-checked theorems over the statement-by-statement model of the two mutually recursive renderers: "
+        "rendering any tree equals rendering it with every metadata node removed at every level, for every depth, "
+        "fan-out, position, indent and eol (structural induction over the nested tree type); insertion at any child "
+        "or list position is a corollary. Tied to the code by differential execution (bounded-exhaustive sibling "
+        "patterns + random trees) and an oracle that renders the implementation with and without the metadata nodes.",
+   note=TB + "The renderer's control flow is hand-modelled (coq/Model/Render.v) and tied to /repo by correspondence; "
+        "dependency collection itself is C10's subject.",
+   tech="Coq proof by structural induction over the renderer model + differential correspondence",
+   ref="6 C07"),
  "C19": dict(
    text="Finite theorems decided by kernel computation over tables regenerated from tags.py, svg.py, __init__.py "
         "and scripts/generate_tags.py on every run (all 113+66 wrappers have the exact pass-through shape, own "
